@@ -9,6 +9,7 @@ import GoRes.Driver.Idx
 import GoRes.Driver.Codec
 import GoRes.Driver.ReqLoad
 import GoRes.Driver.SendReq
+import GoRes.Driver.QE
 /-! `gores-driver <domain>`: one op line in, one line `model<TAB>spec<TAB>tag` out. -/
 open GoRes GoRes.Wire
 
@@ -17,6 +18,7 @@ structure DState where
   store : GoRes.Driver.Store.St := {}
   pool : GoRes.Driver.Pool.VSt := {}
   idx : GoRes.Driver.Idx.St := {}
+  qe : GoRes.Driver.QE.DSt := {}
 
 def stepLine (dom : String) (st : DState) (full : String) : DState × String :=
   -- a line is `op` or `op<TAB>implementation outcome`
@@ -55,6 +57,9 @@ def stepLine (dom : String) (st : DState) (full : String) : DState × String :=
     | "codec" => let (m, s, t) := GoRes.Driver.Codec.run args; (st, m ++ "\t" ++ s ++ "\t" ++ t)
     | "reqload" => let (m, s, t) := GoRes.Driver.ReqLoad.run args; (st, m ++ "\t" ++ s ++ "\t" ++ t)
     | "sendreq" => let (m, s, t) := GoRes.Driver.SendReq.run args; (st, m ++ "\t" ++ s ++ "\t" ++ t)
+    | "qe" =>
+      let (qs, m, s, t) := GoRes.Driver.QE.run st.qe args impl
+      ({ st with qe := qs }, m ++ "\t" ++ s ++ "\t" ++ t)
     | "subs" => let (m, s, t) := GoRes.Driver.Subs.run args impl; (st, m ++ "\t" ++ s ++ "\t" ++ t)
     | _ => (st, "bad-domain\t-\tbad")
 
